@@ -371,13 +371,16 @@ def ob_extrema(w=3, tier="quick"):
     def body(c):
         feas = z3.BitVec("feasible", M)
         c.watch["feasible"] = feas
-        c.assume(feas != 0)                              # FullFrontend checks satisfiability first
         is_max = c.choose([True, True], "is_max") == 0
         signed = c.choose([True, True], "signed") == 1
         ctx = z3.main_ctx()
         expr = z3.BitVec("extrema_e", w, ctx)
         solver = GhostSolver()
         calls = {"n": 0}
+        # the caller's extra constraints: none, or one that cuts the value range (the optimum is then the optimum among the values that are
+        # feasible AND satisfy it; the solver must not keep it afterwards)
+        kx = c.choose([True] * 3, "extra-constraint")
+        extras = () if kx == 0 else ((z3.ULT(expr, z3.BitVecVal(M - 2, w, ctx)),) if kx == 1 else (expr != z3.BitVecVal(M // 2, w, ctx),))
 
         def holds(cons, v):
             val = z3.BitVecVal(v, w, ctx)
@@ -409,7 +412,11 @@ def ob_extrema(w=3, tier="quick"):
             depth0, blocked0 = solver.depth, list(solver.blocked())
             exc = None
             try:
-                r = b._extrema(is_max, expr, (), signed, solver, None)
+                allowed = [v for v in range(M) if holds(extras, v)]
+                c.assume(z3.Or(*[z3.Extract(v, v, feas) == 1 for v in allowed]))        # FullFrontend checks satisfiability (with the extras) first
+                if not c.path_feasible():
+                    raise PathEnd()
+                r = b._extrema(is_max, expr, extras, signed, solver, None)
             except ClaripyError as ex:
                 exc = ex
             c.n_vcs += 1
@@ -431,8 +438,8 @@ def ob_extrema(w=3, tier="quick"):
         rv = proxies.concretize(r) if isinstance(r, SymInt) else r
         pat = rv % M
         key = (lambda v: v - M if (signed and v >= M // 2) else v)
-        c.check("_extrema/feasible", z3.Extract(pat, pat, feas) == 1, f"{'max' if is_max else 'min'} returned {rv}, which is not a feasible value")
-        better = [v for v in range(M) if (key(v) > key(pat) if is_max else key(v) < key(pat))]
+        c.check("_extrema/feasible", z3.And(z3.Extract(pat, pat, feas) == 1, z3.BoolVal(holds(extras, pat))), f"{'max' if is_max else 'min'} returned {rv}, which is not a feasible value (under the extra constraints)")
+        better = [v for v in range(M) if (key(v) > key(pat) if is_max else key(v) < key(pat)) and holds(extras, v)]
         c.check("_extrema/optimum", z3.And(*[z3.Extract(v, v, feas) == 0 for v in better]) if better else True,
                 f"{'max' if is_max else 'min'} returned {rv} although a better feasible value exists")
         if signed and not (-(M // 2) <= rv < M // 2) or (not signed and not (0 <= rv < M)):
